@@ -26,7 +26,7 @@ ASSUMPTIONS = [
 DEPTH = {"quick": 5, "thorough": 7}
 FRAMES = [(), ("t",), ("b",), ("t", "t"), ("t", "b"), ("b", "t"), ("b", "b")]
 FAULTS = [None, 0, 1, 2]
-OPS = ["accept", "accept_sub", "receive", "receive_text", "receive_bytes", "iter_text", "iter_bytes", "send_text", "send_bytes", "close", "close_1001",
+OPS = ["accept", "accept_sub", "receive", "receive_text", "receive_bytes", "iter_text", "iter_bytes", "send_text", "send_bytes", "send_text_empty", "send_bytes_empty", "close", "close_1001",
        "raw_accept", "raw_send", "raw_close", "raw_close_nocode", "raw_http", "raw_trunc", "raw_empty", "state"]
 
 
@@ -123,7 +123,7 @@ class World:
             self.problems.append(f"{op} raised {out[1]} although the application had already closed the connection (close is idempotent)")
         fw = len(self.forwarded) - before_fw
         # the application-side contract, independent of what reached the server
-        sends = ("send_text", "send_bytes", "raw_send")
+        sends = ("send_text", "send_bytes", "send_text_empty", "send_bytes_empty", "raw_send")
         if out[0] == "ok":
             if op in sends and (self.api["closed"] or not self.api["accepted"]):
                 self.problems.append(f"{op} succeeded although the application had {'already closed' if self.api['closed'] else 'not accepted'} the connection")
@@ -198,6 +198,10 @@ class World:
             return ws.send_text("hi")
         if op == "send_bytes":
             return ws.send_bytes(b"hi")
+        if op == "send_text_empty":
+            return ws.send_text("")  # an empty message is a message
+        if op == "send_bytes_empty":
+            return ws.send_bytes(b"")
         if op == "close":
             return ws.close()
         if op == "close_1001":
